@@ -38,7 +38,10 @@ impl AsyncOverlayFS {
 
     /// Finds the layer entry that serves `path`, without looking at its ancestors
     async fn lookup(&self, path: &str) -> VfsResult<AsyncVfsPath> {
-        if self.whiteout_path(path)?.exists().await? {
+        // a whiteout marker hides the entries of the lower layers. An entry of the write layer is
+        // newer than its marker: create_dir/create_file write the entry first and remove the marker
+        // afterwards, and a concurrent lookup in between must already see the new entry
+        if self.whiteout_path(path)?.exists().await? && !self.write_path(path)?.exists().await? {
             return Err(VfsErrorKind::FileNotFound.into());
         }
         for layer in &self.layers {
@@ -160,13 +163,22 @@ impl AsyncFileSystem for AsyncOverlayFS {
             }
         }
         // remove whiteout entries that have been removed
+        let dir_path = path;
         let whiteout_path = self.write_layer().join(format!(".whiteout{}", path))?;
         if whiteout_path.exists().await? {
             let mut path_stream = whiteout_path.read_dir().await?;
             while let Some(path) = path_stream.next().await {
                 let filename = path.filename();
                 if filename.ends_with("_wo") {
-                    entries.remove(&filename[..filename.len() - 3]);
+                    let name = &filename[..filename.len() - 3];
+                    // (an entry of the write layer is newer than its marker, see lookup)
+                    if !self
+                        .write_path(&format!("{}/{}", dir_path, name))?
+                        .exists()
+                        .await?
+                    {
+                        entries.remove(name);
+                    }
                 }
             }
         }
@@ -267,14 +279,6 @@ impl AsyncFileSystem for AsyncOverlayFS {
     }
 
     async fn exists(&self, path: &str) -> VfsResult<bool> {
-        if self
-            .whiteout_path(path)
-            .map_err(|err| err.with_context(|| "whiteout_path"))?
-            .exists()
-            .await?
-        {
-            return Ok(false);
-        }
         match self.read_path(path).await {
             Ok(p) => p.exists().await,
             Err(err) => match err.kind() {
